@@ -33,6 +33,8 @@ type EntryCfg struct {
 	ReachRequired   []string          `json:"reach_required"`
 	Tiers           map[string]TierCfg `json:"tiers"`
 	Intercept       map[string]string `json:"intercept"`
+	Package         string            `json:"package"`      // overrides the check's package for this entry
+	TestPkgDir      string            `json:"test_pkg_dir"` // overrides replay.test_pkg_dir for this entry
 }
 
 type TierCfg struct {
@@ -196,6 +198,11 @@ func run(cfgPath string) int {
 		}
 	}
 	patterns := append([]string{cfg.Package, verifPkgPath}, cfg.Roots...)
+	for _, ent := range cfg.Entries {
+		if ent.Package != "" {
+			patterns = append(patterns, ent.Package)
+		}
+	}
 	pcfg := &packages.Config{
 		Mode:    packages.LoadAllSyntax,
 		Dir:     *repoDir,
@@ -225,7 +232,9 @@ func run(cfgPath string) int {
 	_ = pkgs
 	loadTime := time.Since(tl)
 	var harnessPkg, verifPkg *ssa.Package
+	pkgByPath := map[string]*ssa.Package{}
 	for _, p := range prog.AllPackages() {
+		pkgByPath[p.Pkg.Path()] = p
 		switch p.Pkg.Path() {
 		case cfg.Package:
 			harnessPkg = p
@@ -255,7 +264,16 @@ func run(cfgPath string) int {
 		if tc.Skip {
 			continue
 		}
-		fn := harnessPkg.Func(ent.Name)
+		entPkg := harnessPkg
+		if ent.Package != "" {
+			entPkg = pkgByPath[ent.Package]
+			if entPkg == nil {
+				fmt.Fprintf(os.Stderr, "package %s of entry %s not loaded\n", ent.Package, ent.Name)
+				return 2
+			}
+			entPkg.Build()
+		}
+		fn := entPkg.Func(ent.Name)
 		if fn == nil {
 			fmt.Fprintf(os.Stderr, "entry %s not found in %s\n", ent.Name, cfg.Package)
 			return 2
@@ -339,23 +357,36 @@ func run(cfgPath string) int {
 		}
 		for _, s := range ex.Samples {
 			if len(traceSamples) < 40 && s.Outcome == "ok" {
-				traceSamples = append(traceSamples, traceSample{Entry: ent.Name, Model: s.Model, Reached: s.Reached, Outcome: s.Outcome, Bounds: tc.Bounds})
+				traceSamples = append(traceSamples, traceSample{Entry: ent.Name, Model: s.Model, Reached: s.Reached, Outcome: s.Outcome, Bounds: tc.Bounds, Dir: entryTestDir(cfg, ent.Name)})
 			}
 		}
 	}
 	// validate a sample of explored paths against the native implementation
 	if !*noReplay && cfg.Replay != nil && !cfg.Replay.Disabled && len(traceSamples) > 0 {
-		agree, diffs, err := nativeTraces(cfg, traceSamples)
-		if err != nil {
-			fmt.Fprintf(os.Stderr, "native trace validation failed to run: %v\n", err)
-			inconclusive = true
+		// one native run per test package directory
+		byDir := map[string][]traceSample{}
+		var dirs []string
+		for _, s := range traceSamples {
+			if _, ok := byDir[s.Dir]; !ok {
+				dirs = append(dirs, s.Dir)
+			}
+			byDir[s.Dir] = append(byDir[s.Dir], s)
 		}
-		ev.Validated = agree
-		for _, d := range diffs {
-			fmt.Fprintf(os.Stderr, "ENCODING DISAGREEMENT (trace): %s\n", d)
-			inconclusive = true
+		total := 0
+		for _, d := range dirs {
+			agree, diffs, err := nativeTraces(cfg, d, byDir[d])
+			if err != nil {
+				fmt.Fprintf(os.Stderr, "native trace validation failed to run: %v\n", err)
+				inconclusive = true
+			}
+			total += agree
+			for _, df := range diffs {
+				fmt.Fprintf(os.Stderr, "ENCODING DISAGREEMENT (trace): %s\n", df)
+				inconclusive = true
+			}
 		}
-		fmt.Fprintf(os.Stderr, "native trace validation: %d of %d sampled paths agree\n", agree, len(traceSamples))
+		ev.Validated = total
+		fmt.Fprintf(os.Stderr, "native trace validation: %d of %d sampled paths agree\n", total, len(traceSamples))
 	}
 	// known findings: print one line per listed finding that was witnessed
 	for _, k := range cfg.Known {
@@ -433,6 +464,18 @@ func run(cfgPath string) int {
 		fmt.Fprintf(os.Stderr, "check %s: all %d obligations discharged on %d paths (%.1fs)\n", cfg.Property, ev.totalObl(), ev.totalPaths(), ev.Wall)
 	}
 	return exit
+}
+
+func entryTestDir(cfg *CheckCfg, name string) string {
+	for _, e := range cfg.Entries {
+		if e.Name == name && e.TestPkgDir != "" {
+			return e.TestPkgDir
+		}
+	}
+	if cfg.Replay != nil {
+		return cfg.Replay.TestPkgDir
+	}
+	return ""
 }
 
 func entryTier(cfg *CheckCfg, name, tier string) (TierCfg, bool) {
